@@ -89,6 +89,12 @@ def extra(binary, build, tier, rng):
     for n in ((3, 5, 6, 7) if tier == "quick" else (2, 3, 5, 6, 7, 9, 11, 15, 17, 51, 60)):
         items = ",".join(map(str, range(n)))
         ps.append(("partial_shuffle(%d elements, 1): element at the front" % n, n, 64, (lambda w, items=items: "pshuf items=%s m=1 words=%d" % (items, w)), front, (lambda w1, w2, items=items: "pshuf items=%s m=1 words=%d,%d" % (items, w1, w2))))
+    # mid-sized slices (the element that reaches the front of a slice of n zero bytes with one mark): request bigshuf
+    def frontbig(res):
+        f = O.parse_ok(res)
+        return None if f is None else int(f[0].split(",")[0])
+    for n in ((100000, 1000003) if tier == "quick" else (65792, 100000, 250000, 1000003, 16777259)):
+        ps.append(("partial_shuffle(%d elements, 1): where the first element goes" % n, n, 64, (lambda w, n=n: "bigshuf n=%d m=1 words=%d" % (n, w)), frontbig))
     yield from first_draw_counts(binary, build, rng, ps, "preimage-interval-probes")
     # frequency test under real generators (model-free; alarm only beyond a 1e-12 chi-square bound)
     from .stat_oracle import run_stat, samples_for
